@@ -114,7 +114,8 @@ func VC08_RawMessage() {
 
 // c08Hostile builds a structurally valid message with one hostile field.
 func c08Hostile(N int) (text string, response bool) {
-	kind := rt.Choice("hostile", 9)
+	kind := rt.Choice("hostile", 11)
+	forceResponse := false
 	via := "SIP/2.0/UDP 10.0.2.2:5060;branch=z9hG4bKa"
 	from := "<sip:alice@example.com>;tag=a"
 	to := "<sip:bob@" + wService + ">"
@@ -141,6 +142,34 @@ func c08Hostile(N int) (text string, response bool) {
 		cseq = rt.Str("rawcseq", "[^\\r\\n]", 0, N)
 	case 7:
 		ruri = rt.Str("rawuri", "[^ \\t\\r\\n\\x0b\\x0c\\x80-\\xff]", 1, N)
+	case 9:
+		// a response whose NEXT hop (the entry below the proxy's own) is unusable: odd host, port
+		// beyond 65535, odd received / rport
+		forceResponse = true
+		host, port, params := "10.0.2.7", ":5060", ""
+		switch rt.Choice("aspect", 4) { // one unusable aspect at a time
+		case 0:
+			host = rt.Str("nexthost", "[\\[\\]:a-z0-9.]", 0, N)
+			if rt.Bool("noport") {
+				port = ""
+			}
+		case 1:
+			port = ":" + rt.Str("nextportdigits", "digit", 0, 6)
+		case 2:
+			params = ";received=" + rt.Str("nextrecv", "[\\[\\]:a-z0-9.]", 0, N)
+		case 3:
+			params = ";received=10.0.2.8;rport=" + rt.Str("nextrportdigits", "digit", 0, 6)
+		}
+		via = "SIP/2.0/UDP 10.0.0.9:5060;branch=z9hG4bKown\r\nVia: SIP/2.0/" + []string{"UDP", "TCP"}[rt.Choice("nexttransport", 2)] + " " + host + port + ";branch=z9hG4bKc" + params
+	case 10:
+		// a request whose Route names an unusable next hop
+		host, port := "10.0.2.7", "5060"
+		if rt.Bool("route-host-odd") {
+			host = rt.Str("routehost", "[\\[\\]:a-z0-9.]", 0, N)
+		} else {
+			port = rt.Str("routeportdigits", "digit", 0, 6)
+		}
+		route = "Route: <sip:" + host + ":" + port + ";lr" + []string{"", ";transport=tcp"}[rt.Choice("routetransport", 2)] + ">\r\n"
 	case 8:
 		// missing / repeated mandatory headers
 		switch rt.Choice("structure", 5) {
@@ -156,7 +185,7 @@ func c08Hostile(N int) (text string, response bool) {
 			extra = "Via: SIP/2.0/UDP 10.0.2.3\r\nVia: x\r\nTo: y\r\nFrom: z\r\nCSeq: q\r\nCall-ID: c2\r\nCall-ID: c3\r\n"
 		}
 	}
-	response = rt.Bool("response")
+	response = forceResponse || rt.Bool("response")
 	start := "INVITE " + ruri + " SIP/2.0"
 	if response {
 		start = "SIP/2.0 " + rt.Str("status", "[0-9-]", 1, 4) + " OK"
@@ -200,5 +229,17 @@ func VC08_Pipeline() {
 		">\r\nCall-ID: sentinel\r\nCSeq: 1 OPTIONS\r\nContent-Length: 0\r\n\r\n"
 	rt.Assert(w.deliver(sentinel, "10.0.2.9", 5060, true), "sentinel decodes")
 	rt.Assert(len(w.bs[0].sent) == before+1, "the proxy keeps serving: the sentinel request is relayed after the hostile message")
+	// ... and so is a response, which leaves through the client transport table
+	mark := len(fakenet.Sent)
+	sentinel2 := "SIP/2.0 200 OK\r\nVia: SIP/2.0/UDP 10.0.0.9:5060;branch=z9hG4bKown2\r\nVia: SIP/2.0/UDP 10.0.2.9:5062;branch=z9hG4bKsentinel2\r\nFrom: <sip:s@example.com>;tag=s\r\nTo: <sip:probe@" + wService +
+		">;tag=t\r\nCall-ID: sentinel2\r\nCSeq: 1 OPTIONS\r\nContent-Length: 0\r\n\r\n"
+	rt.Assert(w.deliver(sentinel2, "10.0.1.1", 5060, true), "sentinel response decodes")
+	n2 := 0
+	for i, d := range fakenet.Sent {
+		if i >= mark && d.Remote == "10.0.2.9:5062" {
+			n2++
+		}
+	}
+	rt.Assert(n2 == 1, "the proxy keeps serving: the sentinel response is relayed after the hostile message")
 	rt.Reach("end")
 }
